@@ -40,6 +40,8 @@ def _value(node, params=()):
             return ("emptyList",)
         if len(node.elts) == 1 and isinstance(node.elts[0], ast.Name) and node.elts[0].id in params:
             return ("listOfParam", node.elts[0].id)
+        if all(isinstance(e, ast.Constant) and isinstance(e.value, str) for e in node.elts):
+            return ("strList", [e.value for e in node.elts])
     if isinstance(node, ast.Name) and node.id in params:
         return ("param", node.id)
     return ("unknown", ast.dump(node)[:60])
@@ -52,6 +54,7 @@ def scan(repo=None):
 
     # ---- parser defaults
     defaults = []
+    appends = []
     for call in ast.walk(_func(tree, "main")):
         if not (isinstance(call, ast.Call) and isinstance(call.func, ast.Attribute)
                 and call.func.attr == "add_argument"):
@@ -79,6 +82,8 @@ def scan(repo=None):
         else:
             val = ("none",)
         defaults.append((dest, val, call.lineno))
+        if isinstance(action, ast.Constant) and action.value == "append":
+            appends.append(dest)
     defaults.sort(key=lambda t: t[2])
 
     # ---- create_wrapper assignments
@@ -121,7 +126,7 @@ def scan(repo=None):
                             for t in a.targets:
                                 if isinstance(t, ast.Attribute) and isinstance(t.value, ast.Name) and t.value.id == "self":
                                     cfg_init_attrs.append(t.attr)
-    return dict(cfg_class_mutable=cfg_class_mutable, cfg_class_attrs=cfg_class_attrs, cfg_init_attrs=cfg_init_attrs,
+    return dict(appends=appends, cfg_class_mutable=cfg_class_mutable, cfg_class_attrs=cfg_class_attrs, cfg_init_attrs=cfg_init_attrs,
                 defaults=[(d, v) for d, v, _ in defaults], assigns=[(d, v) for d, v, _ in assigns],
                 reads=reads, params=list(params))
 
@@ -146,6 +151,8 @@ def _lean_v(v):
         return ".param " + _nats(v[1])
     if k == "listOfParam":
         return ".listOfParam " + _nats(v[1])
+    if k == "strList":
+        return ".strList [" + ", ".join(_nats(x) for x in v[1]) + "]"
     return ".unknown"
 
 
@@ -166,7 +173,7 @@ def render(data):
     out.append("")
     out.append("inductive V where")
     out.append("  | str (s : List Nat) | emptyList | bool (b : Bool) | none | int (i : Int)")
-    out.append("  | param (n : List Nat) | listOfParam (n : List Nat) | unknown")
+    out.append("  | param (n : List Nat) | listOfParam (n : List Nat) | strList (l : List (List Nat)) | unknown")
     out.append("deriving Repr, DecidableEq")
     out.append("")
     out.append("/-- field id -> name (code points) -/")
@@ -182,6 +189,9 @@ def render(data):
     out.append("def wrapperAssigns : List (Nat × V) := [")
     out.append(",\n".join("  /- %s -/ (%d, %s)" % (d, idx[d], _lean_v(v)) for d, v in data["assigns"]))
     out.append("]")
+    out.append("")
+    out.append("/-- fields filled by argparse `action=\"append\"`: every occurrence is appended to the DEFAULT list -/")
+    out.append("def appendFields : List Nat := [" + ", ".join("/- %s -/ %d" % (d, idx[d]) for d in data["appends"]) + "]")
     out.append("")
     out.append("/-- attributes of `class Config` bound at class level to a mutable object (shared by all instances) -/")
     out.append("def configClassMutable : List (List Nat) := [" + ", ".join(_nats(n) for n in data["cfg_class_mutable"]) + "]")
